@@ -500,18 +500,6 @@ theorem Reach.mem_closed {S : Spec} {C U : List File} (hU : ∀ h ∈ U, ∀ x, 
   | refl _ => exact hf
   | step _ hc _ ih => exact hU _ ih _ hc
 
-/-- decidable form of "closed under imports" -/
-def closedB (S : Spec) (U : List File) : Bool :=
-  U.all fun h => (S.calls h).all fun c => match c with
-    | some x => U.contains x
-    | none => true
-
-theorem closedB_spec {S : Spec} {U : List File} (h : closedB S U = true) :
-    ∀ h ∈ U, ∀ x, some x ∈ S.calls h → x ∈ U := by
-  intro g hg x hx
-  have h1 := List.all_eq_true.1 h g hg
-  have h2 := List.all_eq_true.1 h1 (some x) hx
-  simpa using h2
 
 /-! ## faults outside the import closure do not matter -/
 
